@@ -613,6 +613,40 @@ def search(ck, seeds=None):
             m2 = corpus.renumber(m, rng)
             S.compare('renumber-generated', smi, m, m2, {'mapping': dict(zip(m._atoms, m2._atoms)), 'atoms': {n: repr(a) for n, a in m.atoms()},
                                                          'bonds': [(n, k, int(bd)) for n, k, bd in m.bonds()]})
+    # every numbering of small molecules (all n! permutations of the atom numbers)
+    from chython import MoleculeContainer
+    lim = 5 if quick else 6
+    smalls = [x for x in SPECIAL + GAP_EXAMPLES if x not in ('[H][H]',)]
+    n_ex = 0
+    for smi in smalls:
+        try:
+            m = smiles(smi)
+        except Exception:
+            continue
+        if not (2 <= len(m) <= lim) or n_ex >= (14 if quick else 60):
+            continue
+        n_ex += 1
+        nums = list(m._atoms)
+        base = str(m)
+        strings = set()
+        for perm in itertools.permutations(nums):
+            c = m.copy()
+            c.remap(dict(zip(nums, perm)))
+            strings.add(str(c))
+            ck.count('search:exhaustive-numberings')
+        ck.case(('search-exhaustive', smi), nontrivial=True)
+        if strings != {base}:
+            gaps = gap_classes(m)
+            if 'bond-tie' in gaps:
+                ck.counterexample(BOND_TIE_KEY, 'canonical SMILES depends on the numbering (bond-order tie)', {'smiles': smi}, sorted(strings),
+                                  'one string', 'all n! numberings', replay_py=BOND_TIE_REPLAY)
+            elif gaps:
+                ck.count('search:gap-skipped:' + '+'.join(sorted(gaps)))
+            else:
+                ck.counterexample(f'canon-differs:all-numberings:{smi}', 'canonical SMILES differs between numberings of one molecule',
+                                  {'smiles': smi}, sorted(strings), 'one string', 'all n! numberings by remap()',
+                                  replay_py=f"from chython import smiles; import itertools; m=smiles({smi!r}); ns=list(m._atoms); "
+                                            f"print({{str((lambda c: (c.remap(dict(zip(ns, p))), c)[1])(m.copy())) for p in itertools.permutations(ns)}})")
     ck.extra['gap_skips'] = S.gap_hits
     return S
 
